@@ -81,7 +81,18 @@ var spicy = []string{
 	"--flag-like", "  padded  ", "{\"json\":true}", "# heading", "line1\r\nline2", " nbsp ", "mixed <>&\"'\\/",
 }
 
+// text made only of characters that render as nothing (or nearly): valid
+// Unicode, not whitespace, so it is a legitimate title or body
+var invisible = []string{"\u0301", "\u0007", "\u200d", "\u00ad", "\x1b[31", "\u200b", "\ufeff", "\u2060", "\u202e", "\u0301\u0302\u0303", "\x7f", "\u034f", "\u0000", "\u200e\u200f", "\U000e0001"}
+
 func (g *Gen) text(kind string) string {
+	if g.Text != "plain" && g.R.Chance(1, 10) {
+		s := invisible[g.R.Intn(len(invisible))]
+		if g.R.Chance(1, 3) {
+			s += invisible[g.R.Intn(len(invisible))]
+		}
+		return s
+	}
 	n := 1 + g.R.Intn(3)
 	var parts []string
 	for i := 0; i < n; i++ {
